@@ -108,8 +108,8 @@ def main():
         src = cut_tests(strip(open(f).read()))
         items = []
         for m in re.finditer(r"#\[derive\(([^)]*)\)\]\s*(?:#\[[^\]]*\]\s*)*(?:pub(?:\([^)]*\))?\s+)?(?:struct|enum)\s+(\$?\w+)", src):
-            ds = sorted(x.strip() for x in m.group(1).split(",") if x.strip())
-            items.append("%s: %s derives %s" % (rel, m.group(2), " ".join(ds)))
+            ds = sorted(x.strip() for x in m.group(1).split(",") if x.strip() in STRUCTURAL)      # Debug, Default ... do not matter here
+            if ds: items.append("%s: %s derives %s" % (rel, m.group(2), " ".join(ds)))
         for m in re.finditer(r"\bimpl(?:<[^>]*>)?\s+(?:core::|std::)?(?:\w+::)*(\w+)\s+for\s+(\$?\w+)", src):
             if m.group(1) in STRUCTURAL: items.append("%s: hand-written impl %s for %s" % (rel, m.group(1), m.group(2)))
         traits[rel] = sorted(items)
